@@ -971,6 +971,61 @@ func (s *c20State) opManifest2(what string) {
 			s.fail(class, "Manifest API: configuration loaded back differs in field "+d)
 		}
 		s.out("NOTE m2 roundtrip ok")
+	case "inplace", "updateconfig", "addfile":
+		// a manifest that is on disk already (saved, loaded back), then a VALID change of its
+		// current configuration - in place through GetConfig().Update (no new entry), through
+		// UpdateConfig (a new entry), or only of the file list - then Save and a fresh load: what
+		// Save accepted is what comes back
+		base := config.NewDefaultConfig(dir)
+		m0, err := config.NewManifest(dir, base)
+		if err != nil || m0.Save() != nil {
+			s.out("NOTE m2 " + what + " setup failed")
+			return
+		}
+		m, err := config.LoadManifest(dir)
+		if err != nil {
+			s.fail("", "LoadManifest fails on a manifest Manifest.Save wrote: "+err.Error())
+			return
+		}
+		change := func(c *config.Config) {
+			c.MemTableSize = 8 << 20
+			c.WALSyncMode = config.SyncBatch
+			c.MaxMemTables = 7
+		}
+		switch what {
+		case "inplace":
+			m.GetConfig().Update(change)
+		case "updateconfig":
+			if err := m.UpdateConfig(change); err != nil {
+				s.fail("", "UpdateConfig rejects a valid change: "+err.Error())
+				return
+			}
+		case "addfile":
+			m.GetConfig().Update(change)
+			if err := m.AddFile("sst/000001.sst", 42); err != nil {
+				s.fail("", "AddFile failed: "+err.Error())
+				return
+			}
+		}
+		want := c20Copy(m.GetConfig())
+		if err := m.Save(); err != nil {
+			s.fail("", "Manifest.Save fails for a valid configuration: "+err.Error())
+			return
+		}
+		m2, err := config.LoadManifest(dir)
+		if err != nil {
+			s.fail("", "LoadManifest fails on a manifest Manifest.Save wrote: "+err.Error())
+			return
+		}
+		if d := c20Diff(want, m2.GetConfig()); d != "" {
+			s.fail("", "Manifest API ("+what+"): Save returned nil for a changed configuration, the configuration loaded back differs in field "+d)
+		}
+		if what == "addfile" {
+			if m2.GetFiles()["sst/000001.sst"] != 42 {
+				s.fail("", "Manifest API (addfile): the file list loaded back lacks the file Save was called with")
+			}
+		}
+		s.out("NOTE m2 " + what + " ok")
 	case "truncall":
 		b, err := os.ReadFile(path)
 		if err != nil {
@@ -1195,6 +1250,9 @@ func genC20(w *bufio.Writer, seed int64, n int, tier string) {
 			}
 			if r.Intn(6) == 0 {
 				g.line("m2 roundtrip")
+			}
+			if r.Intn(8) == 0 {
+				g.line("m2 %s", []string{"inplace", "updateconfig", "addfile"}[r.Intn(3)])
 			}
 		case 1: // malformed stream: odd directory names
 			g.line("case g%d-%d kind=oddstrings", seed, i)
